@@ -1,15 +1,31 @@
 #!/usr/bin/env python3
-'''writes /verif/seeded/<id>/meta.json from result.txt / notes.txt; usage: seedmeta.py <PROP-variant> <detected: yes|no|after-strengthening|thorough-only|out-of-claim> "<comment>"'''
-import sys, json, os, re
-d = sys.argv[1]; detected = sys.argv[2]; comment = sys.argv[3] if len(sys.argv) > 3 else ''
-base = f'/verif/seeded/{d}'
-res = dict(kv.split('=') for kv in open(f'{base}/result.txt').read().split())
-notes = open(f'{base}/notes.txt').read() if os.path.exists(f'{base}/notes.txt') else ''
-log = open(f'{base}/check_seeded.log').read()
-viol = re.findall(r'VIOLATION property=(\S+) replay=\S+\n\s+(.*)', log)
-meta = dict(seed=d, property=d.split('-')[0], source='independent sub-agent given only the property text and a scratch worktree of /repo', what_it_needs_to_manifest=notes.strip(),
-            confirmed=dict(demo_exit_on_unchanged_tree=int(res['demo_clean_exit']), demo_exit_with_change=int(res['demo_seeded_exit']), existing_tests_exit_with_change=res['tests_exit']),
-            ran=[f'PYTHONPATH=/repo/src /venv/bin/python seeded/{d}/demo.py (unchanged tree, then with patch.diff applied by git -C /repo apply)', f'./check {d.split("-")[0]} --tier quick with the patch applied; git -C /repo checkout -- . afterwards'],
-            check_exit_with_change=int(res['check_exit']), detected=detected, first_violation_lines=[v[1][:300] for v in viol[:3]], comment=comment)
-json.dump(meta, open(f'{base}/meta.json', 'w'), indent=1)
-print(d, detected)
+'''(re)writes /verif/seeded/<id>/meta.json for every seed directory from result.txt / notes.txt / check_seeded.log.
+usage: seedmeta.py [--history file]   the optional history file maps seed -> free-text comment (what had to be strengthened)'''
+import sys, json, os, re, glob
+base = '/verif/seeded'
+hist = {}
+hp = os.path.join(base, 'HISTORY.json')
+if os.path.exists(hp): hist = json.load(open(hp))
+rows = []
+for d in sorted(glob.glob(base + '/C*-*')):
+    name = os.path.basename(d)
+    if not os.path.exists(d + '/result.txt'): continue
+    res = dict(kv.split('=') for kv in open(d + '/result.txt').read().split())
+    notes = open(d + '/notes.txt').read().strip() if os.path.exists(d + '/notes.txt') else ''
+    log = open(d + '/check_seeded.log').read() if os.path.exists(d + '/check_seeded.log') else ''
+    viol = re.findall(r'VIOLATION property=(\S+) replay=\S+\n\s+(.*)', log)
+    h = hist.get(name, {})
+    detected = 'yes' if res.get('check_exit') == '1' and viol else 'no'
+    meta = dict(seed=name, property=name.split('-')[0], source='independent sub-agent given only the property text and its own scratch git worktree of /repo (nothing from /verif)',
+                what_it_needs_to_manifest=notes,
+                confirmed=dict(demo_exit_on_unchanged_tree=res.get('demo_clean_exit'), demo_exit_with_change=res.get('demo_seeded_exit'),
+                               pinned_suite_with_change='all 11905 stable_pass tests pass' if res.get('tests_exit') == '0' else res.get('tests_exit'),
+                               suite_log='tests_seeded.log'),
+                ran=[f'tools/seedrun.sh {name.split("-")[0]} {name.split("-")[1]} <dir>: scratch worktree of /repo HEAD; demo.py on the unchanged tree and with patch.diff applied (git apply); the pinned suite command of BASELINE.json (pytest -n 3, junit compared with stable_pass; load-sensitive tests re-run serially); ./check <PROP> --tier quick with VERIF_REPO=<patched worktree>; worktree removed'],
+                check_exit_with_change=res.get('check_exit'), detected_by_quick_check=detected,
+                first_violation_lines=[v[1][:300] for v in viol[:3]],
+                first_attempt=h.get('first', 'detected' if detected == 'yes' else 'missed'),
+                comment=h.get('comment', ''))
+    json.dump(meta, open(d + '/meta.json', 'w'), indent=1)
+    rows.append((name, detected, meta['first_attempt'], meta['comment'][:80]))
+for r in rows: print(*r, sep=' | ')
